@@ -3,6 +3,7 @@ package p9p
 import (
 	"context"
 	"sync"
+	"sync/atomic"
 )
 
 // TODO(frobnitzem): Make these methods return errors
@@ -45,8 +46,9 @@ type SFid struct {
 }
 
 type session struct {
-	fs   FileSys
-	refs sync.Map // type [Fid](*SFid)
+	fs      FileSys
+	refs    sync.Map    // type [Fid](*SFid)
+	stopped atomic.Bool // set by Stop: no fid may be bound any more
 }
 
 // TODO(frobnitzem): validate required server returns to ensure non-nil.
@@ -80,10 +82,19 @@ func SFileSys(fs FileSys) Session {
 
 func (sess *session) Stop(err error) error {
 	ctx := CancelledCtxt{}
+	// Requests may still be in flight (their contexts have been cancelled).
+	// Refuse new fids from now on (see newRef), and take each fid's lock so
+	// that an operation still using it finishes before its entry is clunked.
+	sess.stopped.Store(true)
 	sess.refs.Range(func(fid, ref1 interface{}) bool {
 		ref, ok := ref1.(*SFid)
-		if ok && ref.Ent != nil { // close and clunk
-			delRefAction(ctx, ref, false)
+		if ok {
+			ref.Lock()
+			if ref.Ent != nil { // close and clunk
+				delRefAction(ctx, ref, false)
+			}
+			ref.Unlock()
+			sess.refs.Delete(fid)
 		}
 		return true
 	})
@@ -148,6 +159,13 @@ func (sess *session) newRef(fid Fid) (ref *SFid, err error) {
 	if found {
 		//ref.Unlock() not needed
 		return nil, ErrDupfid
+	}
+	if sess.stopped.Load() {
+		// Stop may already have gone past this fid: binding it now would
+		// leave its entry unreleased for ever.
+		sess.refs.Delete(fid)
+		ref.Unlock() // Stop may be waiting for it
+		return nil, ErrClosed
 	}
 
 	return ref, nil
